@@ -117,6 +117,8 @@ where
     /// A constraint is subsumed by another constraint if unifying the constraint in the
     /// substitution of the another constraint does not extend the constraint.
     pub fn subsumes(&self, other: &dyn Constraint<U, E>) -> bool {
+        #[cfg(feature = "verif")]
+        let _scope = crate::verif::scope("diseq_subsumes");
         match other.downcast_ref::<Self>() {
             Some(other) => {
                 let mut extension = SMap::new();
@@ -139,6 +141,8 @@ where
     }
 
     pub fn walk_star(&self, smap: &SMap<U, E>) -> SMap<U, E> {
+        #[cfg(feature = "verif")]
+        let _scope = crate::verif::scope("diseq_walk_star");
         let mut n = SMap::new();
         for (k, v) in self.smap_ref().iter() {
             let kwalk = smap.walk_star(k);
@@ -156,6 +160,8 @@ where
     E: Engine<U>,
 {
     fn run(self: Rc<Self>, state: State<U, E>) -> SResult<U, E> {
+        #[cfg(feature = "verif")]
+        let _scope = crate::verif::scope("diseq_run");
         let mut extension = SMap::new();
         let mut test_state = state.clone();
         for (u, v) in self.0.iter() {
